@@ -14,7 +14,10 @@ Ent(x) == [loc |-> x.loc, name |-> x.name, kind |-> x.kind, c |-> x.c]
 MF(m) == [k |-> m.k, w |-> m.w, d |-> m.d, pad |-> m.pad]
 StateOf(o) == [tree |-> {Ent(x) : x \in ToSet(o.tree)}, modeFile |-> MF(o.modeFile)]
 If(c, name) == IF c THEN {} ELSE {name}
-Days(r) == {r.today0, r.today1}
+(* the UTC date before and after the command; when the command ran with TZ set to a zone far from UTC the    *)
+(* documentation does not say which calendar counts, so the neighbouring dates are not a violation         *)
+Days(r) == {r.today0, r.today1} \cup (IF r.tz = "" THEN {} ELSE {r.today0 - 1, r.today1 + 1})
+UtcDays(r) == {r.today0, r.today1}
 Violated(r) ==
     LET c == r.cmd  s == StateOf(r.s)  t == StateOf(r.t) IN
          If(K_CleanRemovesData(c, s, t), "CleanRemovesData")
@@ -25,10 +28,10 @@ Violated(r) ==
     \cup If(K_Records(c, s, <<r.env.w, r.env.d>>, <<r.lib.w, r.lib.d>>, Days(r)), "Records")
 Predicted(r) ==
     LET s == StateOf(r.s)  t == StateOf(r.t) IN
-    /\ \E d \in Days(r) : t = CmdStep(s, r.cmd, d)
+    /\ \E d \in UtcDays(r) : t = CmdStep(s, r.cmd, d)
     /\ <<r.lib.w, r.lib.d>> = ReadBack(t.modeFile)
     /\ (r.cmd = "env" => <<r.env.w, r.env.d>> = ReadBack(s.modeFile))
-    /\ r.rc = 0
+    /\ (r.cmd \in Commands <=> r.rc = 0)
 Init == l = 1
 Next == /\ l <= Len(Trace)
         /\ l' = l + 1
